@@ -6,11 +6,12 @@ From MV Require Import Base.Bytes Model.RawRelay.
 Import ListNotations.
 
 Inductive case :=
-| Case (p : proto) (ign sopen : bool) (evs : list event)
+| Case (p : proto) (ign sopen un : bool) (evs : list event)
        (alien crash : bool)                 (* implementation: unknown command or exception / AssertionError *)
        (out : list cmd)                     (* every command yielded, in order *)
        (phase waitk qlen cst sst : nat)     (* _handle_event, outstanding command kind, queue length, state bits *)
        (msgs : list (bool * bytes))         (* flow.messages oldest first *)
+       (eofc eofs : bool)                   (* True / False in _eof_handled *)
        (err live : bool).                   (* flow.error is set, flow.live *)
 
 Definition cmd_eqb (a b : cmd) : bool :=
@@ -30,13 +31,14 @@ Definition msg_eqb (a b : bool * bytes) : bool := Bool.eqb (fst a) (fst b) && by
 
 Definition check_case (c : case) : bool :=
   match c with
-  | Case p ign sopen evs alien crash out phase waitk qlen cst sst msgs err live =>
-    let '(st, out') := run pol_id (init (mkCfg p ign sopen)) evs in
+  | Case p ign sopen un evs alien crash out phase waitk qlen cst sst msgs eofc eofs err live =>
+    let '(st, out') := run pol_id (init (mkCfg p ign sopen un)) evs in
     negb alien && Bool.eqb (crashed st) crash && list_eqb cmd_eqb out' out
     && (crash ||
         (Nat.eqb (phase_n (ph st)) phase && Nat.eqb (wait_n (wait st)) waitk
          && Nat.eqb (length (queue st)) qlen
          && Nat.eqb (conn_n (client st)) cst && Nat.eqb (conn_n (server st)) sst
          && list_eqb msg_eqb (rev (messages (fl st))) msgs
+         && Bool.eqb (eof_c st) eofc && Bool.eqb (eof_s st) eofs
          && Bool.eqb (f_error (fl st)) err && Bool.eqb (f_live (fl st)) live))
   end.
